@@ -486,7 +486,7 @@ func (h *httpServerHandler) handlePostResponse(ctx context.Context, w http.Respo
 	}
 
 	// Deliver response using responseManager.
-	if h.responseManager.DeliverResponse(requestIDStr, responseMessage) {
+	if h.responseManager.DeliverResponse(requestIDStr, sessionID, responseMessage) {
 		h.logger.Debugf("Successfully delivered response for request ID: %v", response.ID)
 	} else {
 		h.logger.Debugf("Received response for unknown request ID: %v", response.ID)
@@ -763,7 +763,7 @@ func (h *httpServerHandler) SendRequest(ctx context.Context, sessionID string, r
 
 	// Register request and get response channel.
 	requestIDStr := fmt.Sprintf("%v", request.ID)
-	responseChan := h.responseManager.RegisterRequest(requestIDStr)
+	responseChan := h.responseManager.RegisterRequest(requestIDStr, sessionID)
 	defer h.responseManager.UnregisterRequest(requestIDStr)
 
 	// Send the request through GET SSE using the proper sendRequest method.
@@ -817,6 +817,7 @@ func (h *httpServerHandler) isValidPath(requestPath string) bool {
 // responseManager manages pending requests and their response channels.
 type responseManager struct {
 	pendingRequests map[string]chan *json.RawMessage
+	pendingSessions map[string]string // request ID -> ID of the session the request was sent to
 	mutex           sync.RWMutex
 	requestIDGen    atomic.Int64
 }
@@ -825,6 +826,7 @@ type responseManager struct {
 func newResponseManager() *responseManager {
 	return &responseManager{
 		pendingRequests: make(map[string]chan *json.RawMessage),
+		pendingSessions: make(map[string]string),
 	}
 }
 
@@ -834,10 +836,11 @@ func (rm *responseManager) GenerateRequestID() string {
 }
 
 // RegisterRequest registers a request and returns a response channel.
-func (rm *responseManager) RegisterRequest(requestID string) chan *json.RawMessage {
+func (rm *responseManager) RegisterRequest(requestID string, sessionID string) chan *json.RawMessage {
 	responseChan := make(chan *json.RawMessage, 1)
 	rm.mutex.Lock()
 	rm.pendingRequests[requestID] = responseChan
+	rm.pendingSessions[requestID] = sessionID
 	rm.mutex.Unlock()
 	return responseChan
 }
@@ -846,16 +849,19 @@ func (rm *responseManager) RegisterRequest(requestID string) chan *json.RawMessa
 func (rm *responseManager) UnregisterRequest(requestID string) {
 	rm.mutex.Lock()
 	delete(rm.pendingRequests, requestID)
+	delete(rm.pendingSessions, requestID)
 	rm.mutex.Unlock()
 }
 
 // DeliverResponse delivers a response to the waiting request.
-func (rm *responseManager) DeliverResponse(requestID string, response *json.RawMessage) bool {
+// Only the session the request was sent to may answer it.
+func (rm *responseManager) DeliverResponse(requestID string, sessionID string, response *json.RawMessage) bool {
 	rm.mutex.RLock()
 	responseChan, exists := rm.pendingRequests[requestID]
+	owner := rm.pendingSessions[requestID]
 	rm.mutex.RUnlock()
 
-	if !exists {
+	if !exists || owner != sessionID {
 		return false
 	}
 
